@@ -537,7 +537,9 @@ func c13Confirm(tw *toolWorld, seed uint64, idx int, in toolInput, kind, class, 
 			return nil
 		}
 	}
-	if cl == "not-bounded" && !contains(c.Args, "-cache") {
+	if (cl == "not-bounded" || cl == "hang" || cl == "crash") && !contains(c.Args, "-cache") {
+		// (with -debug every step of an exponential parse also writes to stderr, and
+		// the run ends in the memory limit or the wall-clock watchdog first)
 		// "-cache: cache parser results to avoid exponential parsing time in
 		// pathological cases" - reading a grammar text without it may take
 		// exponential time by design (nested parentheses do). That is documented
